@@ -154,6 +154,51 @@ func checkC08(w *Worker) {
 		x.Case(fmt.Sprint(ci, text), true)
 		runOne(x, map[string]string{"food.yaml": text, "log.yaml": text}, tokCmds[ci], "tokens")
 	})
+	// ---- every subset of the boolean flags of reg / bal / report / lint (global and sub-command), with and without valued flags
+	type flagCmd struct {
+		name   string
+		bools  []string
+		valued [][]string
+		tail   []string
+	}
+	flagCmds := []flagCmd{
+		{"reg", []string{"--csv", "--no-color", "--no-totals", "--totals-only", "--shorten", "--use-old-reg-reporter", "-g"}, [][]string{nil, {"-s", "cal"}, {"-f", "r"}, {"--internal-template-name", "left-aligned"}}, nil},
+		{"bal", []string{"--collapse-last", "-c"}, [][]string{nil, {"-s", "cal"}, {"-b", "2021/01/24"}}, nil},
+		{"lint", []string{"--silent"}, [][]string{nil}, []string{"log.yaml"}},
+		{"print", nil, [][]string{nil, {"-b", "2021/01/25", "-e", "2021/01/24"}}, nil},
+	}
+	flagInputs := []map[string]string{
+		{"food.yaml": goodBook, "log.yaml": goodLog},
+		{"food.yaml": goodBook + "r2:\n  r1: 2\n  fat: -1\n", "log.yaml": "2021/01/24:\n  r1: 1\n  u: -2\n  r1: 0.5\n2021/01/25:\n2021/01/26:\n  a/b/c: 1\n  r2: 0\n"},
+		{"food.yaml": "", "log.yaml": ""},
+	}
+	w.Explore("flag-subsets", ExploreOpts{ShardDepth: 4, NoAudit: true}, func(x *Exec) {
+		fc := flagCmds[x.Choose(len(flagCmds), "input:command")]
+		in := flagInputs[x.Choose(len(flagInputs), "input:input")]
+		var global []string
+		if x.Choose(2, "config:global-no-color") == 1 {
+			global = append(global, "--no-color")
+		}
+		if x.Choose(2, "config:no-database") == 1 {
+			global = append(global, "--no-database")
+		}
+		args := []string{fc.name}
+		for _, b := range fc.bools {
+			if x.Choose(2, "config:"+b) == 1 {
+				args = append(args, b)
+			}
+		}
+		args = append(args, fc.valued[x.Choose(len(fc.valued), "config:valued")]...)
+		args = append(args, fc.tail...)
+		x.Case(fmt.Sprint(global, args), len(args) > 1)
+		c := appCase{Args: append(global, args...), Files: in}
+		x.Journal("C08|flag-subsets", "`"+c.shell()+"`")
+		r := runApp(c)
+		x.Obs(fmt.Sprint(r.Failed), firstLine(r.Panic))
+		if r.Panic != "" {
+			x.Violate("C08|"+fc.name+" flag combination|panic", fmt.Sprintf("`%s` panics: %s", c.shell(), r.Panic), map[string]interface{}{"cmd": c.shell(), "args": c.Args})
+		}
+	})
 	// ---- unreadable inputs: a directory as file, lines that do not fit the scanner's buffer (before and
 	// after the first heading, as comment, as heading, as entry, without any newline), in every role x every command
 	os.MkdirAll(filepath.Join(theApp.dir, "adir"), 0o755)
